@@ -24,16 +24,18 @@ type c20Scenario struct {
 	hasOld    bool
 	oldBigger bool
 	noClobber bool
+	linked    bool // the existing entry is a symbolic link to the file that holds the document
 }
 
 var c20Scenarios = []c20Scenario{
-	{"first-store-missing-directory", false, false, false, false},
-	{"first-store-existing-directory", true, false, false, false},
-	{"overwrite-smaller-old", true, true, false, false},
-	{"overwrite-larger-old", true, true, true, false},
-	{"overwrite-no-clobber", true, true, false, true},
-	{"first-store-no-clobber", true, false, false, true},
-	{"first-store-missing-directory-no-clobber", false, false, false, true},
+	{"first-store-missing-directory", false, false, false, false, false},
+	{"first-store-existing-directory", true, false, false, false, false},
+	{"overwrite-smaller-old", true, true, false, false, false},
+	{"overwrite-larger-old", true, true, true, false, false},
+	{"overwrite-no-clobber", true, true, false, true, false},
+	{"first-store-no-clobber", true, false, false, true, false},
+	{"first-store-missing-directory-no-clobber", false, false, false, true, false},
+	{"overwrite-entry-is-a-symbolic-link", true, true, false, false, true},
 }
 
 var c20Sizes = []int{100, 1000, 8000, 64000}
@@ -76,6 +78,13 @@ func copyTree(src, dst string) error {
 		t := filepath.Join(dst, rel)
 		if info.IsDir() {
 			return os.MkdirAll(t, 0o755)
+		}
+		if info.Mode()&os.ModeSymlink != 0 {
+			target, err := os.Readlink(p)
+			if err != nil {
+				return err
+			}
+			return os.Symlink(target, t)
 		}
 		in, err := os.Open(p)
 		if err != nil {
@@ -171,7 +180,7 @@ func c20Plan(tier string) (cases [][3]int) { // scenario, size index, chunk
 func init() {
 	core.Register(&core.Prop{
 		ID: "C20", Level: "fault_enumeration",
-		Rule: "for each scenario (first store into a missing directory, into an existing one, overwrite of a smaller and of a larger entry, overwrite with no-clobber, first store with no-clobber into an existing and into a missing directory) and document size (0.1, 1, 8, 64 KB) the storing child " +
+		Rule: "for each scenario (first store into a missing directory, into an existing one, overwrite of a smaller and of a larger entry, overwrite with no-clobber, first store with no-clobber into an existing and into a missing directory, overwrite of an entry that is a symbolic link to the file holding the document) and document size (0.1, 1, 8, 64 KB) the storing child " +
 			"(one Store through the FileSystem backend, uid 65534) runs under a ptrace tracer that follows all threads and numbers, in one global order, the entry and exit stops of every file-system syscall touching the store directory. A fault-free run fixes the stop sequence; then the child is SIGKILLed at EVERY stop, " +
 			"and for every write to a file in the directory at each chosen prefix length (quick: 0,1,2,3, every top-level field boundary of the protobuf encoding +-1, half, len-2, len-1, padded to >=48 PRNG-chosen prefixes; thorough: EVERY prefix for documents <=8 KB, 4096 stratified prefixes at 64 KB) " +
 			"the length register is rewritten at the syscall entry, the kernel performs the short write and the child is killed at the exit. After each trial a fresh process retrieves the target id and two bystander ids; the outcome must be the complete old document, the complete new one, or an error return " +
@@ -241,6 +250,27 @@ func c20Case(c *core.C) {
 		if sc.hasOld {
 			if o := runChild(true, "storeone", "-dir", store, "-docfile", filepath.Join(base, "old.pb")); o.kind != "OK" {
 				c.Violatef("harness-prestate", o.msg, "cannot build the pre-state: %s %s", o.kind, o.msg)
+				return
+			}
+		}
+		if sc.linked {
+			// the entry of the target becomes a symbolic link to a file kept next to the store (found by content)
+			ents, _ := os.ReadDir(store)
+			moved := false
+			for _, e := range ents {
+				p := filepath.Join(store, e.Name())
+				b, rerr := os.ReadFile(p)
+				d := &sbom.Document{}
+				if rerr == nil && proto.Unmarshal(b, d) == nil && proto.Equal(d, oldDoc) {
+					real := filepath.Join(pre, "real")
+					_ = os.MkdirAll(real, 0o755)
+					if os.Rename(p, filepath.Join(real, e.Name())) == nil && os.Symlink(filepath.Join("..", "real", e.Name()), p) == nil {
+						moved = true
+					}
+				}
+			}
+			if !moved {
+				c.Inconclusive("cannot turn the target's entry into a symbolic link (storage layout changed?)")
 				return
 			}
 		}
